@@ -203,12 +203,6 @@ void    finish_rule (int mach, bool variable_trail_rule, int headcnt, int trailc
 	 */
 	rule_linenum[num_rules] = linenum;
 
-	/* If this is a continued action, then the line-number has already
-	 * been updated, giving us the wrong number.
-	 */
-	if (continued_action)
-		--rule_linenum[num_rules];
-
 
 	/* If the previous rule was continued action, then we inherit the
 	 * previous newline flag, possibly overriding the current one.
@@ -294,7 +288,13 @@ void    begin_rule_action (void)
 	if (!continued_action)
 		add_action ("M4_HOOK_SET_RULE_SETUP\n");
 
-	/* A '|' action's line has already been counted. */
+	/* A '|' action's line has already been counted.  Only here is it
+	 * known whether this rule has one: finish_rule() may have run
+	 * before the scanner read past the pattern.
+	 */
+	if (continued_action)
+		rule_linenum[num_rules] = linenum - 1;
+
 	line_directive_out(NULL, infilename,
 			   continued_action ? linenum - 1 : linenum);
 	add_action("[[");
